@@ -806,6 +806,10 @@ func (g *Gen) verifyFunc(fn *ssa.Function, con *Contract) (vc *VC, err error) {
 			vc.set(r.st, comp, v.t)
 		}
 		for _, cl := range con.Ens {
+			if cl.Trusted {
+				vc.note("trusted postcondition (assumed by callers, not proved against the body) of " + name + ": " + cl.Text)
+				continue
+			}
 			env := x.newEnv(r.st, x.oldOf(r.st))
 			env.bindResults(sig, r.vals)
 			t := env.evalBool(cl.Expr)
@@ -821,6 +825,14 @@ func (g *Gen) verifyFunc(fn *ssa.Function, con *Contract) (vc *VC, err error) {
 			x.obligeClause("preserves", clauseLabel(cl), r.st.reach, eq(after.t, before.t), cl)
 		}
 		x.frameCheck(r.st, ri)
+	}
+	// a call site the contract speaks about must exist
+	for site, cls := range con.Asserts {
+		if !x.seenSites[site] {
+			for _, cl := range cls {
+				x.obligeClause("assert", site+"/site-missing/"+clauseLabel(cl), "true", "false", cl)
+			}
+		}
 	}
 	if len(x.rets) > 0 {
 		var rs []string
